@@ -247,3 +247,12 @@ def expect_int64(digits, radix, neg, exp):
     if neg:
         return "OK %d" % (-v) if v <= 2 ** 63 else "OVERFLOW"
     return "OK %d" % v if v <= I64_MAX else "OVERFLOW"
+
+
+def kind_of_text(t):
+    """coarse kind of a value text (for narrow violation classes)"""
+    t = t.strip()
+    if b"/" in t and t.replace(b"/", b"").replace(b"-", b"").isdigit():
+        n, d = t.lstrip(b"-").split(b"/")
+        return "bigratio" if (int(n) > 2 ** 63 or int(d) >= 2 ** 63) else "ratio"
+    return "other"
